@@ -23,7 +23,13 @@ pub static C16: C16Prop = C16Prop;
 
 /// a delay in ms and a spelling that denotes exactly that value
 fn spelled(rng: &mut Rng) -> (u64, String) {
-    match rng.below(7) {
+    match rng.below(9) {
+        7 => {
+            // above 65 535 ms (what a 16 bit field could hold in the binary model)
+            let n = rng.range(2, 4);
+            (n * 60_000, format!("{}m", n))
+        }
+        8 => (90_000, "1.5m".to_string()),
         0 => {
             let n = rng.range(1, 90);
             (n, format!("{}ms", n))
